@@ -69,6 +69,9 @@ type phase struct {
 	window string
 	burst  int // number of additional back-to-back compactions right after this one
 	ahead  int // viaBackend: the request names committed + ahead, a revision not handed out yet
+	// failDel: the first plain delete (a version record) of this key in this pass fails with an engine error
+	// (experiment VERIF_C17_FAULT=1 only: what is left of an expired Event when its index is gone and a version stays)
+	failDel string
 }
 
 type scanPlan struct {
@@ -109,6 +112,10 @@ func genScanPlan(r *lib.Rand, engine string, ttl int, corpus int) scanPlan {
 		p.pre = []lib.CsWrite{mk("create", "/registry/events/default/e1"), mk("create", "/registry/pods/a")}
 		p.phases = []phase{{gap: 0, ahead: 50}, {gap: ttl / 2, writes: []lib.CsWrite{mk("create", "/registry/events/default/e3"), mk("create", "/registry/events/kube-system/e2")}},
 			{gap: ttl/2 + 300}, {gap: ttl/2 + 300, ahead: 7}, {gap: ttl + 300}}
+		return p
+	case 6: // experiment: the delete of the Event's version fails after its index has been removed; later passes
+		p.pre = []lib.CsWrite{mk("create", "/registry/events/default/e1"), mk("create", "/registry/pods/a")}
+		p.phases = []phase{{gap: 0}, {gap: ttl + 150, failDel: "/registry/events/default/e1"}, {gap: ttl / 3}, {gap: ttl + 150}}
 		return p
 	case 4: // many marks inside one TTL window: each mark keeps its own time
 		p.pre = []lib.CsWrite{mk("create", "/registry/events/default/e1"), mk("create", "/registry/pods/a")}
@@ -328,6 +335,22 @@ func runScan(p scanPlan, scratch string) (o out) {
 					return nil
 				}
 			}
+			if ph.failDel != "" && b == 0 {
+				fkey := []byte(ph.failDel)
+				windowHook = func(kind string, key []byte) error {
+					if kind != "del" && kind != "delcur" {
+						return nil
+					}
+					if uk, _, derr := cd.Decode(key); derr == nil && kind == "del" && bytes.Equal(uk, fkey) && !fired {
+						fired = true
+						ocs = append(ocs, lib.Pair("[]", "OFailOther"))
+						js = append(js, map[string]interface{}{"op": "engine delete fails", "key": ph.failDel})
+						return fmt.Errorf("verif: injected delete failure")
+					}
+					ocs = append(ocs, lib.Pair("[]", "OOk"))
+					return nil
+				}
+			}
 			a := time.Since(t0)
 			last = time.Now()
 			cur, req := be.B.GetCurrentRevision(), R
@@ -342,6 +365,13 @@ func runScan(p scanPlan, scratch string) (o out) {
 			}
 			bb := time.Since(t0)
 			windowHook = nil
+			for _, q := range p.phases {
+				if q.failDel != "" {
+					kv, ok, _ := be.Get([]byte(q.failDel), 0)
+					js = append(js, map[string]interface{}{"op": "Get after the pass", "key": q.failDel, "present": ok, "rev": kv.Rev})
+					break
+				}
+			}
 			spans = append(spans, span{a, bb})
 			now, err := sortedDecoded(eng)
 			if err != nil {
@@ -651,6 +681,12 @@ func main() {
 				t = 600
 			}
 			p := genScanPlan(rnd, e, t, c)
+			jobs = append(jobs, func() out { return runScan(p, args.Scratch) })
+		}
+	}
+	if os.Getenv("VERIF_C17_FAULT") == "1" { // experiment, not part of the check: see props/C17.json
+		for _, e := range []string{lib.EngMem, lib.EngTiKV} {
+			p := genScanPlan(rnd, e, ttl, 6)
 			jobs = append(jobs, func() out { return runScan(p, args.Scratch) })
 		}
 	}
